@@ -433,10 +433,13 @@ def getbins(bins, mx, mn, right=True, check_bounds=False):
         bins = int(bins[0])
         bb = np.linspace(mn, mx, bins + 1)
         p = 0.001 * (mx - mn)
+        # move the open end by at least one unit in the last place so
+        # that the extreme value is inside the outer bin even when
+        # `p` is lost to round-off (`mx - mn` tiny relative to `mx`)
         if right:
-            bb[0] -= p
+            bb[0] = min(bb[0] - p, np.nextafter(mn, -np.inf))
         else:
-            bb[-1] += p
+            bb[-1] = max(bb[-1] + p, np.nextafter(mx, np.inf))
         out_of_bounds = False
     elif bins.ndim == 1:
         if np.any(np.diff(bins) <= 0):
